@@ -162,8 +162,8 @@ type captureProbe struct {
 	Global  int    // defined global index (global-init)
 	Addr    uint32 // data-offset: address of first byte
 	Byte    byte
-	Prev    byte   // what was there before the segment was applied
-	Table   int    // elem-*: table index and slot
+	Prev    byte // what was there before the segment was applied
+	Table   int  // elem-*: table index and slot
 	Slot    uint32
 	Want    mRef
 	PrevRef mRef
@@ -592,6 +592,48 @@ func (m *model) call(f *mFunc, a []uint64) ([]uint64, string) {
 		return nil, ""
 	case "ci", "import":
 		return m.call(in.funcs[s.A], a)
+	case "cim":
+		a1, a2 := uint64(uint32(a[len(a)-2])), uint64(uint32(a[len(a)-1]))
+		if !memRange(in.mem, a1, 1) {
+			return nil, trapOOBMem
+		}
+		pre := uint64(in.mem.data[a1])
+		res, trap := m.call(in.funcs[s.A], a[:len(a)-2])
+		if trap != "" {
+			return nil, trap
+		}
+		if !memRange(in.mem, a2, 1) {
+			return nil, trapOOBMem
+		}
+		return append(append([]uint64{}, res...), pre, uint64(in.mem.data[a2]), uint64(in.mem.pages())), ""
+	case "cig":
+		g := in.globs[s.B]
+		pre := []uint64{g.lo}
+		if g.typ.Type == wenc.V128 {
+			pre = append(pre, g.hi)
+		}
+		res, trap := m.call(in.funcs[s.A], a)
+		if trap != "" {
+			return nil, trap
+		}
+		out := append(append([]uint64{}, res...), pre...)
+		out = append(out, g.lo)
+		if g.typ.Type == wenc.V128 {
+			out = append(out, g.hi)
+		}
+		return out, ""
+	case "cit":
+		t := in.tabs[s.B]
+		slot := uint32(a[len(a)-1])
+		pre := uint64(len(t.slots))
+		res, trap := m.call(in.funcs[s.A], a[:len(a)-1])
+		if trap != "" {
+			return nil, trap
+		}
+		if slot >= uint32(len(t.slots)) {
+			return nil, trapTable
+		}
+		return append(append([]uint64{}, res...), pre, uint64(len(t.slots)), b2u(t.slots[slot].fn == nil)), ""
 	case "start":
 		for _, act := range in.spec.Start.Acts {
 			switch act.Kind {
